@@ -111,3 +111,34 @@ def HEX_TOBIN(m, start, end, pad):
 def in_version_grammar(s):
     import re
     return re.fullmatch(r"[0-9]+(\.[0-9]+)*(-(alpha|beta|rc)(\.[0-9]+)?)?", s) is not None
+
+
+def AESGCM_ENC(key, nonce, pt, aad):
+    """AES-GCM with pycryptodome (independent of the `cryptography` package the tool uses): ciphertext || tag."""
+    from Crypto.Cipher import AES
+    c = AES.new(key, AES.MODE_GCM, nonce=nonce)
+    c.update(aad)
+    ct, tag = c.encrypt_and_digest(pt)
+    return ct + tag
+
+
+def AESGCM_DEC(key, nonce, ct, tag, aad):
+    from Crypto.Cipher import AES
+    c = AES.new(key, AES.MODE_GCM, nonce=nonce)
+    c.update(aad)
+    return c.decrypt_and_verify(ct, tag)
+
+
+def pathstr(p):
+    return str(p)
+
+
+def KEYS_DIR(context):
+    """Key directory of ncs/basic_kms.py for a context string (mirrors parse_context for path and None contexts)."""
+    import pathlib, json, os
+    if context is None:
+        import ncs.basic_kms as m
+        return str(pathlib.Path(m.__file__).parent)
+    if os.path.isdir(context):
+        return str(pathlib.Path(context))
+    return str(pathlib.Path(json.loads(context)["keys_directory"]))
